@@ -13,6 +13,21 @@ COMMON_NOTE = ("Trusted: Coq 8.16.1 kernel (full .vo build, vm_compute, no nativ
                "not verified directly. ")
 
 CLAIMED = {
+    "C03": {
+        "text": "Theorems over all conformant files of the whitepaper layout (Spec/Esri.v: any of the 14 types, any record count, "
+                "null records, per-record optional M, PointZ with/without M, any part structure, any stored boxes and record "
+                "numbers, any trailing bytes): C03_record (L1, parse of encode, for every record) and C03_decodes_conformant (the "
+                "reader returns the header as stored and exactly what every record denotes, in order, then ends), for the "
+                "generic and the typed reader, by induction on the records and on the reading program. Tie: files produced by an "
+                "independent Python encoder are read by the real reader and by the model; both must equal the independent Python "
+                "denotation.",
+        "note": COMMON_NOTE + "Spec/Esri.v and Spec/Denote.v (transcription of the whitepaper) are trusted and cross-checked against "
+                "gen/refesri.py. The theorems mention the orientation test, whose Flocq definitions depend on the four "
+                "classical-reals axioms of the standard library (sig_forall_dec, sig_not_dec, functional_extensionality_dep, classic).",
+        "technique": "Coq proof (free-monad reading programs, parse-of-encode lemma L1, induction over records) + differential "
+                     "correspondence on reference-encoder files",
+        "design_ref": "DESIGN.md section 7 (C03)",
+    },
     "C18": {
         "text": "Theorem for every shape value (unbounded part counts and lengths): bytes emitted by write_to = size_in_bytes, "
                 "record content length = (size+4)/2 exactly (C18_size, C18_record_len, C18_record_bytes; closed under the global "
